@@ -12,6 +12,9 @@ if args and args[0] == "-j":
 only = set(args)
 path = os.path.join(SEEDED, "DETECTION.json")
 res = json.load(open(path)) if os.path.exists(path) else {}
+# the checks run from a SNAPSHOT of /verif taken now, so that editing /verif while the matrix runs cannot disturb it
+SNAP = f"/tmp/seedmatrix_snap_{os.getpid()}"
+subprocess.run(f"rm -rf {SNAP} && mkdir -p {SNAP} && rsync -a --exclude .git --exclude out --exclude .work --exclude evidence --exclude seeded /verif/ {SNAP}/", shell=True, check=True)
 
 
 def one(mid):
@@ -25,7 +28,7 @@ def one(mid):
         a = subprocess.run(f"git -C {wt} apply {d}/patch.diff", shell=True, stdout=subprocess.PIPE, stderr=subprocess.STDOUT, text=True)
         if a.returncode != 0:
             return mid, dict(property=prop, applies=False)
-        p = subprocess.run(["./check", prop, "--tier", "quick", "--no-evidence"], cwd="/verif", env=dict(os.environ, VERIF_REPO=wt),
+        p = subprocess.run(["./check", prop, "--tier", "quick", "--no-evidence"], cwd=SNAP, env=dict(os.environ, VERIF_REPO=wt),
                            stdout=subprocess.PIPE, stderr=subprocess.STDOUT, text=True, timeout=3000)
         keys = re.findall(r"^  key=(\S+) cases=(\d+)", p.stdout, re.M)
         return mid, dict(property=prop, applies=True, rc=p.returncode, detected=p.returncode == 1, keys=[k for k, _ in keys][:8], cases=sum(int(n) for _, n in keys))
@@ -39,4 +42,5 @@ with ThreadPoolExecutor(max_workers=jobs) as ex:
         res[mid] = r
         print(mid, r.get("rc"), r.get("keys", [])[:3], flush=True)
         json.dump(res, open(path, "w"), indent=1, sort_keys=True)
+subprocess.run(f"rm -rf {SNAP}", shell=True)
 print("detected", sum(1 for r in res.values() if r.get("detected")), "of", len(res))
